@@ -135,8 +135,9 @@ func (r c19Rule) yaml() string {
 
 type c19Cfg struct {
 	rules       []c19Rule
-	localAny    bool // firewall.default_local_cidr_any
-	defTimeout  int  // minutes, >= 10 (changing it changes the firewall section but not the rules)
+	localAny    bool   // firewall.default_local_cidr_any
+	defTimeout  int    // minutes, >= 10 (changing it changes the firewall section but not the rules)
+	timed       [3]int // tcp, udp, default conntrack timeouts in seconds; zero = the 12m/3m/defTimeout of an untimed history
 	inAction    string
 	broken      bool // an unparsable rule: the reload must be refused and the old rules stay
 	description string
@@ -144,7 +145,11 @@ type c19Cfg struct {
 
 func (c *c19Cfg) yaml() string {
 	var sb strings.Builder
-	fmt.Fprintf(&sb, "firewall:\n  inbound_action: %s\n  default_local_cidr_any: %v\n  conntrack:\n    tcp_timeout: 12m\n    udp_timeout: 3m\n    default_timeout: %dm\n", c.inAction, c.localAny, c.defTimeout)
+	if c.timed[0] > 0 {
+		fmt.Fprintf(&sb, "firewall:\n  inbound_action: %s\n  default_local_cidr_any: %v\n  conntrack:\n    tcp_timeout: %ds\n    udp_timeout: %ds\n    default_timeout: %ds\n", c.inAction, c.localAny, c.timed[0], c.timed[1], c.timed[2])
+	} else {
+		fmt.Fprintf(&sb, "firewall:\n  inbound_action: %s\n  default_local_cidr_any: %v\n  conntrack:\n    tcp_timeout: 12m\n    udp_timeout: 3m\n    default_timeout: %dm\n", c.inAction, c.localAny, c.defTimeout)
+	}
 	for _, in := range []bool{false, true} {
 		var body strings.Builder
 		for _, r := range c.rules {
@@ -290,7 +295,8 @@ type c19Flow struct {
 	changed         bool // some reload since then changed something about the rules
 	wraps           int  // version-counter wraps observed when the flow last passed
 	version         uint16
-	lastPass        string
+	lastSeen        time.Time     // last time a packet of the flow passed
+	t               time.Duration // the protocol's configured idle timeout (practically infinite in untimed histories)
 }
 
 type c19Hist struct {
@@ -306,6 +312,9 @@ type c19Hist struct {
 	t0        time.Time
 	flows     map[firewall.Packet]*c19Flow
 	forgotten map[firewall.Packet]bool
+	expired   map[firewall.Packet]bool // forgotten because it idled past its timeout
+	timed     [3]int                   // conntrack timeouts of this history in seconds (zero: untimed)
+	reloadAt  []time.Time              // effective reloads
 	passEpoch map[firewall.Packet]int64
 	wraps     int
 	reloads   int // effective reloads (a new Firewall was installed)
@@ -334,7 +343,8 @@ func (h *c19Hist) replay(what string) any {
 
 func c19Start(r *verifkit.Reporter, fx *c19Fixture, cfg *c19Cfg, certState int, startVersion uint16, cacheD time.Duration, ctx context.Context) *c19Hist {
 	h := &c19Hist{r: r, fx: fx, cur: cfg, certState: certState, cacheD: cacheD, t0: time.Now(),
-		flows: map[firewall.Packet]*c19Flow{}, forgotten: map[firewall.Packet]bool{}, passEpoch: map[firewall.Packet]int64{}}
+		flows: map[firewall.Packet]*c19Flow{}, forgotten: map[firewall.Packet]bool{}, expired: map[firewall.Packet]bool{},
+		passEpoch: map[firewall.Packet]int64{}, timed: cfg.timed}
 	h.c = config.NewC(fx.l)
 	h.curText = cfg.yaml()
 	if err := h.c.LoadString(h.curText); err != nil {
@@ -407,6 +417,7 @@ func (h *c19Hist) reload(cfg *c19Cfg, certState int, kind string) {
 		return
 	}
 	h.reloads++
+	h.reloadAt = append(h.reloadAt, time.Now())
 	newV := h.ifc.firewall.rulesVersion
 	// the version counter is only observed to name witness classes and to prove that the wrap was crossed;
 	// how an implementation numbers rule sets is not part of the property
@@ -468,6 +479,29 @@ func (f *c19Flow) orig() string {
 	return "out"
 }
 
+// timeoutOf is the configured idle timeout of a protocol in this history.
+func (h *c19Hist) timeoutOf(proto uint8) time.Duration {
+	if h.timed[0] == 0 {
+		return 1000 * time.Hour // untimed histories stay far below 3 minutes of virtual time
+	}
+	switch proto {
+	case firewall.ProtoTCP:
+		return time.Duration(h.timed[0]) * time.Second
+	case firewall.ProtoUDP:
+		return time.Duration(h.timed[1]) * time.Second
+	}
+	return time.Duration(h.timed[2]) * time.Second
+}
+
+func (h *c19Hist) reloadedSince(t time.Time) bool {
+	for _, at := range h.reloadAt {
+		if !at.Before(t) {
+			return true
+		}
+	}
+	return false
+}
+
 func (h *c19Hist) epoch(t time.Time) int64 { return int64(t.Sub(h.t0) / h.cacheD) }
 
 func c19Tuple(p firewall.Packet) string {
@@ -508,11 +542,14 @@ func (h *c19Hist) send(p firewall.Packet, in bool, peer *c19Peer, why string) (p
 	fl := h.flows[p]
 	addrOK := h.fx.addrOK(h.certState, p, peer)
 	allowedNow := addrOK && c19Allowed(h.fx, h.cur, p, in, peer)
-	stale, origAll := false, false
+	stale, origAll, idleOut := false, false, false
+	var idle time.Duration
 	if fl != nil {
 		var origAny bool
 		origAny, origAll = h.origAllowed(p, fl)
 		stale = !origAny
+		idle = now.Sub(fl.lastSeen)
+		idleOut = idle > fl.t // idle longer than its protocol's timeout: expired, whatever was reloaded meanwhile
 	}
 	verdict, sig := "", ""
 	viol := func(key, what string) {
@@ -525,6 +562,9 @@ func (h *c19Hist) send(p firewall.Packet, in bool, peer *c19Peer, why string) (p
 		r.Violation(key, what+": "+step, h.replay(verdict))
 	}
 	notePass := func() {
+		if fl != nil {
+			fl.lastSeen = now
+		}
 		if fl != nil && !slack {
 			// the table was consulted for this packet (no routine cache could have answered it): the flow is
 			// known to be held under the installed rule set
@@ -545,13 +585,16 @@ func (h *c19Hist) send(p firewall.Packet, in bool, peer *c19Peer, why string) (p
 	case allowedNow:
 		state := "new"
 		switch {
-		case fl != nil && stale && slack:
+		case fl != nil && (stale || idleOut) && slack:
 			// a routine cache may answer this packet without the conntrack table being consulted: the old
 			// entry may survive until the cache tick ends, or may be replaced by this packet
 			state = "replaces-stale-flow-or-answered-by-cache"
 			fl.origIn, fl.origOut = true, true
 		case fl != nil && stale:
 			state = "replaces-stale-flow"
+			fl = nil
+		case fl != nil && idleOut:
+			state = "replaces-expired-flow"
 			fl = nil
 		case fl != nil:
 			state = "existing-flow"
@@ -571,9 +614,10 @@ func (h *c19Hist) send(p firewall.Packet, in bool, peer *c19Peer, why string) (p
 			return
 		}
 		if fl == nil {
-			fl = &c19Flow{origIn: in, origOut: !in, peer: peer, wraps: h.wraps, version: fw.rulesVersion}
+			fl = &c19Flow{origIn: in, origOut: !in, peer: peer, wraps: h.wraps, version: fw.rulesVersion, t: h.timeoutOf(p.Protocol)}
 			h.flows[p] = fl
 			delete(h.forgotten, p)
+			delete(h.expired, p)
 		}
 		notePass()
 		if slack {
@@ -583,7 +627,9 @@ func (h *c19Hist) send(p firewall.Packet, in bool, peer *c19Peer, why string) (p
 		sig = fmt.Sprintf("untracked/forgotten=%v/slack=%v/pass=%v", h.forgotten[p], slack, passed)
 		verdict = "no flow"
 		if passed && !slack {
-			if h.forgotten[p] {
+			if h.expired[p] {
+				viol("C19/expired-flow-honoured", "the flow idled past its timeout earlier and no rule has allowed a new packet for it, yet it passed")
+			} else if h.forgotten[p] {
 				viol("C19/forgotten-flow-honoured-again", "the flow was dropped by revalidation earlier and no rule has allowed a new packet for it, yet it passed")
 			} else {
 				viol("C19/untracked-tuple-honoured", "no rule allows the packet and no flow exists for the tuple, yet it passed")
@@ -612,13 +658,39 @@ func (h *c19Hist) send(p firewall.Packet, in bool, peer *c19Peer, why string) (p
 			h.forgotten[p] = true
 			r.Count("stale_flow_dropped", 1)
 		}
+	case idleOut:
+		sig = fmt.Sprintf("expired/orig=%s/after=%s/reloaded-since=%v/slack=%v/pass=%v", fl.orig(), h.lastKind, h.reloadedSince(fl.lastSeen), slack, passed)
+		verdict = fmt.Sprintf("flow idle %v > timeout %v: expired, reloads never revive it", idle, fl.t)
+		switch {
+		case passed && !slack:
+			key, what := "C19/expired-flow-honoured", "no reload since it last passed"
+			if h.reloadedSince(fl.lastSeen) {
+				key, what = "C19/expired-flow-revived-by-reload", "a reload that still allows its original direction was installed since it last passed"
+			}
+			viol(key, fmt.Sprintf("no rule allows the packet and its flow has been idle %v > its protocol's timeout %v (%s), yet it passed", idle, fl.t, what))
+			return
+		case passed:
+			r.Count("passed_by_cache_slack", 1)
+			h.passEpoch[p] = h.epoch(now)
+			fl.lastSeen = now
+		default:
+			delete(h.flows, p)
+			h.forgotten[p], h.expired[p] = true, true
+			r.Count("expired_flow_dropped", 1)
+			if h.reloadedSince(fl.lastSeen) {
+				r.Count("expired_flow_dropped_after_reload", 1)
+			}
+		}
 	default:
-		must := !fl.lazy && origAll
+		must := !fl.lazy && origAll && idle < fl.t-h.cacheD
 		sig = fmt.Sprintf("tracked/orig=%s/must=%v/changed=%v/after=%s/pass=%v/cachehit=%v/wrapped=%v", fl.orig(), must, fl.changed, h.lastKind, passed, inCache, h.wraps > fl.wraps)
 		verdict = fmt.Sprintf("tracked, original direction allowed now (must-pass=%v)", must)
 		switch {
 		case passed:
 			r.Count("tracked_flow_honoured", 1)
+			if h.timed[0] > 0 && h.reloadedSince(fl.lastSeen) {
+				r.Count("fresh_flow_honoured_after_reload_timed", 1)
+			}
 			if fl.version != fw.rulesVersion {
 				r.Count("honoured_after_reload", 1)
 			}
@@ -726,7 +798,7 @@ func c19TupleFor(fx *c19Fixture, rng *rand.Rand, r c19Rule, eph uint16) c19Tup {
 }
 
 func c19MutateCfg(rng *rand.Rand, base *c19Cfg) *c19Cfg {
-	n := &c19Cfg{rules: slices.Clone(base.rules), localAny: base.localAny, defTimeout: base.defTimeout, inAction: base.inAction}
+	n := &c19Cfg{rules: slices.Clone(base.rules), localAny: base.localAny, defTimeout: base.defTimeout, inAction: base.inAction, timed: base.timed}
 	switch k := rng.IntN(8); {
 	case k == 0 && len(n.rules) > 0:
 		i := rng.IntN(len(n.rules))
@@ -773,6 +845,10 @@ func c19MutateCfg(rng *rand.Rand, base *c19Cfg) *c19Cfg {
 func c19RunHistory(r *verifkit.Reporter, fx *c19Fixture, idx int) {
 	rng := verifkit.SubRand("C19hist", idx)
 	base := &c19Cfg{defTimeout: 10, inAction: "drop", description: "(base)"}
+	if rng.IntN(2) == 0 {
+		// timed history: small conntrack timeouts, idle gaps around them between traffic and reloads
+		base.timed = [][3]int{{6, 3, 4}, {2, 5, 3}, {4, 4, 4}, {8, 2, 5}}[rng.IntN(4)]
+	}
 	for i, n := 0, 1+rng.IntN(5); i < n; i++ {
 		base.rules = append(base.rules, c19RandRule(rng))
 	}
@@ -821,6 +897,38 @@ func c19RunHistory(r *verifkit.Reporter, fx *c19Fixture, idx int) {
 			h.sleep([]time.Duration{0, 0, 0, 300 * time.Millisecond, time.Second, 1200 * time.Millisecond}[rng.IntN(6)])
 		}
 		switch k := rng.IntN(20); {
+		case k < 11 && base.timed[0] > 0 && len(h.flows) > 0 && rng.IntN(3) == 0:
+			// idle probe: let one tracked flow idle for a gap chosen relative to its protocol's timeout, optionally
+			// reload (the flow's original direction may or may not stay allowed), then send the packet of the
+			// other direction as the first lookup
+			var cand []c19Tup
+			for _, t := range tups {
+				if h.flows[t.p] != nil {
+					cand = append(cand, t)
+				}
+			}
+			if len(cand) == 0 {
+				break
+			}
+			t := cand[rng.IntN(len(cand))]
+			fl := h.flows[t.p]
+			eps := []time.Duration{time.Nanosecond, time.Millisecond}[rng.IntN(2)]
+			gap := []time.Duration{fl.t / 2, fl.t - eps, fl.t + eps, 3 * fl.t}[rng.IntN(4)]
+			h.sleep(time.Until(fl.lastSeen.Add(gap)))
+			switch rng.IntN(6) {
+			case 0:
+				curIdx = rng.IntN(len(palette))
+				h.reload(palette[curIdx], h.certState, "switch-rule-set")
+			case 1, 2:
+				c := *palette[curIdx]
+				c.inAction = map[string]string{"drop": "reject", "reject": "drop"}[c.inAction]
+				c.description = "(inbound_action changed)"
+				palette[curIdx] = &c
+				h.reload(&c, h.certState, "rule-preserving-change")
+			case 3:
+				h.reload(palette[curIdx], h.certState, "identical-config")
+			}
+			h.send(t.p, !fl.origIn, t.peer, "packet-after-idle-gap")
 		case k < 11:
 			t := tups[rng.IntN(len(tups))]
 			in := t.in
@@ -838,7 +946,11 @@ func c19RunHistory(r *verifkit.Reporter, fx *c19Fixture, idx int) {
 			// same rules, different order / timeout / action: the firewall section changes, the rules do not
 			c := *palette[curIdx]
 			c.rules = slices.Clone(c.rules)
-			switch rng.IntN(3) {
+			kind := rng.IntN(3)
+			if kind == 1 && c.timed[0] > 0 {
+				kind = 2 // the timeouts of a timed history stay fixed: the model's T must not change under a flow
+			}
+			switch kind {
 			case 0:
 				rng.Shuffle(len(c.rules), func(i, j int) { c.rules[i], c.rules[j] = c.rules[j], c.rules[i] })
 				c.description = "(rules reordered)"
@@ -867,12 +979,15 @@ func c19RunHistory(r *verifkit.Reporter, fx *c19Fixture, idx int) {
 		r.Sample(map[string]any{"history": h.steps})
 	}
 	r.Count("histories", 1)
+	if base.timed[0] > 0 {
+		r.Count("histories_timed", 1)
+	}
 	r.Count("effective_reloads", h.reloads)
 }
 
 func TestVerifC19Histories(t *testing.T) {
 	r := verifkit.NewReporter(t, "C19", "hist",
-		"PRNG histories: a palette of 2-5 generated rule sets (proto/port/range, host/group/groups/cidr, local_cidr, default_local_cidr_any) installed through the real reloadFirewall in random order (reverts, identical reloads, rule-preserving changes, refused configs, certificate unsafe-network changes, starts just below the uint16 version wrap), interleaved with packets of 3-8 tuples in both directions, with and without per-direction routine caches; distinct = (protocol, direction, cache, model case, original direction, last reload kind, verdict) classes")
+		"PRNG histories: a palette of 2-5 generated rule sets (proto/port/range, host/group/groups/cidr, local_cidr, default_local_cidr_any) installed through the real reloadFirewall in random order (reverts, identical reloads, rule-preserving changes, refused configs, certificate unsafe-network changes, starts just below the uint16 version wrap), interleaved with packets of 3-8 tuples in both directions, with and without per-direction routine caches; half of the histories are timed (conntrack timeouts of 2-8 s, idle gaps T/2, T-eps, T+eps, 3T on a tracked flow followed by an optional reload and the opposite-direction packet as first lookup: an expired flow is never revived); distinct = (protocol, direction, cache, model case, original direction, last reload kind, verdict) classes")
 	defer r.Done()
 	fx := c19NewFixture()
 	n := verifkit.Scale(2000, 200000)
